@@ -14,10 +14,12 @@
    Layers are strings, events and commands small integers.  The layer "R" is the router, i.e. the layer ABOVE the
    children in Children; it handles events of its own (blocking once per event) and forwards everything else.
    While R waits for a completion, everything below it is legitimately held back (a blocked layer blocks the layers
-   below it, never the ones above).                                                                *)
+   below it, never the ones above).  "T" is a tunnel layer above R (mitmproxy.proxy.tunnel.TunnelLayer, used by the
+   tunnel scenarios of props/C04.py only): it waits while its own OpenConnection for the tunnel connection is
+   outstanding; its continuation is synchronous, so the completion of that command ends the wait.            *)
 EXTENDS Verif
 CONSTANTS Children
-Layers == Children \cup {"R"}
+Layers == Children \cup {"R", "T"}
 
 MonInit == [bad |-> <<>>, wit |-> {},
             arr |-> [L \in Layers |-> <<>>],   \* events that arrived for L, in order
@@ -29,7 +31,9 @@ MonInit == [bad |-> <<>>, wit |-> {},
 
 \* checked whenever the environment acts again: everything that could run synchronously must have run
 \* L can run right now: the protocol is chosen and no layer above L is waiting
-Free(m, L) == m.chosen /\ (L = "R" \/ m.wait["R"] = 0)
+Free(m, L) == /\ m.chosen
+              /\ (L = "T" \/ m.wait["T"] = 0)
+              /\ (L \in {"T", "R"} \/ m.wait["R"] = 0)
 Stalled(m) ==
   IF \E L \in Layers : Free(m, L) /\ m.wait[L] = 0 /\ m.cur[L] = 0 /\ m.ent[L] < Len(m.arr[L])
     THEN <<"C04.event_delayed_or_lost">>
@@ -62,11 +66,14 @@ MonStep(m, ev) ==
                                                      THEN {"arrive_while_sibling_blocked"} ELSE {})
                                                 \cup (IF m.wait[ev.L] # 0 THEN {"arrive_while_blocked"} ELSE {})
                                                 \cup (IF ev.L # "R" /\ m.wait["R"] # 0 THEN {"arrive_while_parent_blocked"} ELSE {})
+                                                \cup (IF m.wait["T"] # 0 THEN {"arrive_while_tunnel_opening"} ELSE {})
+                                                \cup (IF Get(ev, "hs", FALSE) THEN {"arrive_during_tunnel_handshake"} ELSE {})
                                                 \cup (IF ~m.chosen THEN {"arrive_before_choice"} ELSE {})]
     [] ev.k = "enter"  -> [m1 EXCEPT !.ent[ev.L] = @ + 1, !.cur[ev.L] = ev.e]
     [] ev.k = "exit"   -> [m1 EXCEPT !.cur[ev.L] = 0]
     [] ev.k = "block"  -> [m1 EXCEPT !.wait[ev.L] = ev.c]
     [] ev.k = "complete" -> [m1 EXCEPT !.completed = @ \cup {<<ev.c, ev.r>>},
+                                       !.wait["T"] = IF m.wait["T"] = ev.c THEN 0 ELSE @,
                                        !.wit = @ \cup (IF m.wait["R"] # 0 /\ m.wait["R"] # ev.c
                                                        THEN {"child_completion_while_parent_blocked"} ELSE {})]
     [] ev.k = "resume" -> [m1 EXCEPT !.wait[ev.L] = 0,
